@@ -40,7 +40,7 @@ def run_partitioned(exe, args_before, nparts, deadline, tag):
             kind = "hang" if p.returncode == -14 else ("signal:%d" % -p.returncode if p.returncode < 0 else "exit:%d" % p.returncode)
             crashes.append((kind, n, inp, p.stderr.decode(errors="replace")[-2500:]))
             start = n + 1
-            if len(crashes) > 20:
+            if len(crashes) > 5:
                 break
         try:
             os.remove(prog)
@@ -70,6 +70,7 @@ def seeds(tier):
         ("gen/classes", "class A { public int v = 1; protected static int n = 0; public constructor(int x) -> A { this.v = x; A.n = A.n + 1; return this; } public virtual function m() -> int { return this.v; } public destructor() -> void { echo(\"~A\"); } }\nclass B extends A { private final float f; public constructor() -> B { super(2); this.f = 1.5f; return this; } public override function m() -> int { return super.m() + 1; } }\nfunction main() -> void { A a = new B(); echo(a.m()); a = null; B b = new B(); destroy b; }\n"),
         ("gen/generic", "class Box<T> { public T v; public static int count = 0; public constructor(T x) -> Box<T> { this.v = x; return this; } public function get() -> T { return this.v; } }\nfunction main() -> void { Box<int> b = new Box<int>(3); Box<float> c = new Box<float>(1.5f); echo(b.get()); echo(c.get()); }\n"),
         ("gen/control", "function fib(int n) -> int { if (n < 2) { return n; } return fib(n - 1) + fib(n - 2); }\nfunction main() -> void { int[3] a = {1, 2, 3}; long s = 0L; for (int i = 0; i < 3; i++) { s = s + a[i]; } while (s > 0L) { s = s - 2L; } final int k = 4; int[k] z; z[1] = (int) 2.5f; s > 0L ? echo(\"p\") : echo(\"n\"); echo(fib(5) % 3); char c = 'x'; string t = \"a\" + 1 + c; bit q = 1b & ~0b; boolean w = !true || false; echo(t); }\n"),
+        ("gen/hierarchy", "class Root { public int r; public constructor() -> Root = default; public virtual function m() -> int { return 0; } }\nclass Shape extends Root { public constructor() -> Shape = default; public override function m() -> int { return 1; } }\nclass Circle extends Shape { public constructor() -> Circle = default; }\nclass Disc extends Circle { public constructor() -> Disc = default; }\nclass Ring extends Circle { public constructor() -> Ring = default; }\nclass Dot extends Disc { public constructor() -> Dot = default; }\nclass Ball extends Root { public constructor() -> Ball = default; }\nfunction main() -> void { Root o = new Dot(); echo(o.m()); }\n"),
         ("gen/shots", "@shots(3)\nfunction main() -> void { @tracked qubit q; h(q); measure q; }\n"),
         ("gen/imports", "package app;\nimport lib.util.Helper;\nimport lib.util.*;\nfunction main() -> void { echo(1); }\n"),
     ]
@@ -92,6 +93,7 @@ def main(tier):
         plan.append((["Ltokens", "5", "5", "5"], 420, "L5"))
         plan.append((["bytes", "3"], 600, "bytes"))
         plan.append((["nest", "200"], 300, "nest"))
+        plan.append((["hier", "5"], 300, "hier"))
     else:
         for alpha, ctxs, k in ((0, (0,), 4), (1, (1, 3), 4), (2, (2,), 4), (3, (1,), 5)):
             for c in ctxs:
@@ -99,6 +101,7 @@ def main(tier):
         plan.append((["Ltokens", "5", "5", "4"], 100, "L5"))
         plan.append((["bytes", "2"], 60, "bytes"))
         plan.append((["nest", "120"], 60, "nest"))
+        plan.append((["hier", "4"], 60, "hier"))
     sd = seeds(tier)
     os.makedirs(os.path.join(vcheck.VERIF, "build", "tmp"), exist_ok=True)
     for i, (name, text) in enumerate(sd):
